@@ -15,6 +15,12 @@ def pbt(name, driver, quick, thorough, mode="run", variant="asan", **kw):
     return d
 
 
+def fuzz(name, driver, quick, thorough, **kw):
+    d = {"kind": "fuzz", "name": name, "driver": driver, "src": "fuzz/%s.cpp" % driver, "quick": quick, "thorough": thorough}
+    d.update(kw)
+    return d
+
+
 PROPS = {}
 NOT_CLAIMED = {}
 HOOK_COMMITS = ["bae4130"]
@@ -258,3 +264,29 @@ PROPS["C15"] = {
             thorough={"cases": 50000, "size": 200, "shards": 16}),
     ],
 }
+
+PROPS["C02"] = {
+    "level": "exploration",
+    "engine": "libFuzzer + rapidcheck",
+    "technique": "coverage-guided fuzzing (libFuzzer, structure-aware histories, semantic oracle inside the target) + deterministic truncation / field sweep + property-based mutated histories, all under ASan/UBSan",
+    "rule": "cases = histories of 1..8 buffers on one decoder: raw bytes, CMP frames from field recipes (typed payload templates, segments, "
+            "overridden lengths, trailing bytes, truncation), TECMP frames; sweep = 16 seed frames x every truncation offset x every "
+            "byte / 16-bit field set to boundary values, each between a first and a last segment; non-trivial when some decode call "
+            "returned a packet, left a pending reassembly or converted a TECMP message; distinct = distinct inputs (64-bit hash)",
+    "assumptions": COMMON_ASSUMPTIONS + ["buffers are exactly-sized heap copies freed before the returned packets are inspected",
+                                         "libFuzzer -seed pins a campaign only approximately; a saved artifact is the reproducible unit; "
+                                         "timeout/oom/slow-unit artifacts count only if reproduced three times in isolation"],
+    "level_text": "Memory safety is observed by ASan/UBSan on every decode of generated, swept and coverage-guided inputs; the semantic "
+                  "part (input not written, <= 1 packet per 12 bytes, non-null packets with payload, ownership after free / later frames / "
+                  "decoder destruction, in-bounds accessor views) is asserted inside the target. Prompt return: libFuzzer -timeout.",
+    "level_note": "Trusted: ASan/UBSan, libFuzzer; the structure-aware decoder of the fuzz input only shapes the search.",
+    "stages": [
+        pbt("truncation_field_sweep", "pbt_C02", mode="enum", quick={}, thorough={"timeout": 7200}),
+        pbt("mutated_histories", "pbt_C02", quick={"cases": 1500, "size": 100, "shards": 4},
+            thorough={"cases": 30000, "size": 200, "shards": 16}),
+        fuzz("libfuzzer_decode", "fuzz_decode", quick={"workers": 8, "runs": 150000, "max_len": 600, "max_len_big": 4096},
+             thorough={"workers": 16, "runs": 10000000, "max_len": 1024, "max_len_big": 65536, "timeout": 14400}),
+    ],
+}
+ENGINES.append({"name": "libFuzzer targets", "path": "/verif/harness/fuzz", "serves_properties": ["C02", "C03"],
+                "kind_free_text": "coverage-guided fuzzing, structure-aware decode of the input, semantic oracle inside the target"})
